@@ -111,6 +111,14 @@ func drawCRSWorld(t *rapid.T, label string, nTargets int, opts ProgOpts, rulesOp
 			}
 		}
 		words = append(words, drawWordList(t, 0, 2, label+"-excw", endings)...)
+		if chance(t, 35, label+"-excdef") {
+			// exclude files that define the same name differently: what one of them defines must not depend on which is parsed first
+			words = append([]string{"##!> define exd " + pick(t, []string{"s", "es", "x"}, label+"-exdv")}, words...)
+			if len(src) > 0 {
+				base := src[0]
+				words = append(words, strings.TrimRight(base, "sex")+"{{exd}}")
+			}
+		}
 		w.Put("crs/regex-assembly/exclude/"+name+".ra", joinLines(words))
 		excs = append(excs, name)
 	}
